@@ -108,6 +108,9 @@ def country_of(case):
     c = case.get("country", "us")
     if c == "us":
         return US(), 365
+    if c == "es":
+        from rp2.plugin.country.es import ES
+        return ES(), 365
     if c == "generic":
         from rp2.plugin.country.generic import Generic
         os.environ["CURRENCY_CODE"] = "usd"
@@ -122,8 +125,8 @@ def gen(rng, prop=None):
     n = rng.randint(2, 14)
     country, PERIOD = "us", 365
     if prop == "C05":
-        country = rng.choice(["us", "us", "generic", "generic", "jp", "ie"])
-        PERIOD = {"us": 365, "generic": rng.choice([0, 1, 30, 123, 365, 366]), "jp": 365, "ie": 365}[country]     # jp/ie: placed at 365 days, must stay short
+        country = rng.choice(["us", "es", "generic", "generic", "jp", "ie"])
+        PERIOD = {"us": 365, "es": 365, "generic": rng.choice([0, 1, 30, 123, 365, 366]), "jp": 365, "ie": 365}[country]     # jp/ie: placed at 365 days, must stay short
     pool = sorted(rng.sample(range(0, 1200), rng.randint(2, 6)))
     offs = [0] if rng.random() > MIXED.get(prop, 0.4) else [0, -8 * 3600, 5 * 3600 + 1800, 14 * 3600, -12 * 3600]
     if offs == [0] and rng.random() < 0.35:
@@ -292,7 +295,7 @@ def run_impl(case, fd="case", td="case", rows=None):
 def encode(case):
     fd = date.fromisoformat(case["from"]) if case["from"] else None
     td = date.fromisoformat(case["to"]) if case["to"] else None
-    period = {"us": 365, "generic": case.get("period", 365)}.get(case.get("country", "us"), sys.maxsize)
+    period = {"us": 365, "es": 365, "generic": case.get("period", 365)}.get(case.get("country", "us"), sys.maxsize)
     L = [f"CFG {period} {1 if case['neg'] else 0} {o(ordn(fd) if fd else None)} {o(ordn(td) if td else None)}"] + [f"SCHED {y} {m}" for y, m in case["sched"].items()]
     L += encode_rows(case["rows"])
     return L + ["RUN"]
@@ -516,7 +519,7 @@ def oracle_c05(case, res, guard=True):
     if res["status"] != "ok":
         return None
     rows = {r[1]: r for r in case["rows"]}
-    period = {"us": 365, "generic": case.get("period", 365)}.get(case.get("country", "us"))      # None: never long-term (jp, ie)
+    period = {"us": 365, "es": 365, "generic": case.get("period", 365)}.get(case.get("country", "us"))      # None: never long-term (jp, ie)
     for k, f in enumerate(res["fractions"]):
         exp = period is not None and f["lot"] is not None and rows[f["ev"]][2] - rows[f["lot"]][2] >= period * 86400 * 10**6
         if f["long"] != exp:
